@@ -1,7 +1,7 @@
 (* C09 -- property theorems only: each is closed by [exact] of a lemma proved elsewhere. *)
-From Coq Require Import List Arith ZArith NArith PArith.
+From Coq Require Import List Arith ZArith NArith PArith Permutation.
 From Muscle Require Import Cont.HtModel Cont.HtStep Cont.HtIdeal Cont.HtLemmas Cont.HtRepr Cont.HtWalk
-                           Cont.HtTable Cont.HtInv Cont.HtSafe Cont.HtSafeAll Cont.HtRefine Cont.HtPend Cont.HtTravW Cont.HtTravOps Cont.HtTravThm Cont.HtTravRefuted Cont.HtSorted Cont.HtSortedThm Gen.Consts.
+                           Cont.HtTable Cont.HtInv Cont.HtSafe Cont.HtSafeAll Cont.HtRefine Cont.HtPend Cont.HtTravW Cont.HtTravOps Cont.HtTravThm Cont.HtTravRefuted Cont.HtSorted Cont.HtSortedThm Cont.HtIdealLaws Cont.HtLaws Gen.Consts.
 Import ListNotations.
 
 (* InsertIterationEntry is list insertion: if the links of h form the list l1 ++ l2 and e is an
@@ -80,11 +80,40 @@ Theorem C09_ht_refines : forall var dcap nt ni ops,
 Proof. exact init_refines. Qed.
 Print Assumptions C09_ht_refines.
 
+(* the map laws on the code-shaped model, for all three classes (also when the auto-sorting classes
+   reposition entries): Get after Put / after Remove *)
+Theorem C09_put_then_get : forall var dcap w t k v, WF w -> t < length (tabs w) ->
+  let w' := fst (step1 var dcap w (OPut t k v)) in
+  snd (step1 var dcap w' (OGet t k)) = OVal (Some v) /\
+  (forall k', k' <> k -> snd (step1 var dcap w' (OGet t k')) = snd (step1 var dcap w (OGet t k'))).
+Proof. exact put_then_get. Qed.
+Print Assumptions C09_put_then_get.
+
+Theorem C09_remove_then_get : forall var dcap w t k, WF w -> t < length (tabs w) ->
+  let w' := fst (step1 var dcap w (ORemove t k)) in
+  snd (step1 var dcap w' (OGet t k)) = OVal None /\
+  (forall k', k' <> k -> snd (step1 var dcap w' (OGet t k')) = snd (step1 var dcap w (OGet t k'))).
+Proof. exact remove_then_get. Qed.
+Print Assumptions C09_remove_then_get.
+
+(* the two order-dependent ideal operations of the auto-sorting classes only permute the pairs *)
+Theorem C09_ordered_insert_permutes : forall var l kv, Permutation (kv :: l) (l0_insert_ordered var l kv).
+Proof. exact insert_ordered_perm. Qed.
+Print Assumptions C09_ordered_insert_permutes.
+
+Theorem C09_ordered_reposition_permutes : forall var l k, Permutation l (l0_reposition_ordered var l k).
+Proof. exact reposition_ordered_perm. Qed.
+Print Assumptions C09_ordered_reposition_permutes.
+
 (* Traversals.  [tr_ok i w ops]: ops consists of advances of iterator i and of operations that do not
-   operate on iterator i and are calm ([calm]: every operation except those that may relink a
-   surviving entry -- MoveTo*, PutAt*/PutBefore/PutBehind, Sort*, Reposition, SetAutoSortEnabled,
-   Put on an existing key of an auto-sorting table, CopyFrom, copy construction -- which are admitted only
-   when they leave the world unchanged).  [trav i w ops]: the entries newly shown by the advances.
+   operate on iterator i and are calm ([calm]): Put of a new key (any class) or of any key of the plain
+   class, PutIfNotAlreadyPresent, GetOrPut, every query, Remove / RemoveFirst / RemoveLast, Remove(table),
+   Intersect, EnsureSize / ShrinkToFit / EnsureCanPut, Clear, CopyFrom with clearing, copy construction,
+   move construction, PreallocatedItemSlotsCount construction, SwapContents / move assignment,
+   MoveToTable / CopyToTable, destruction, and every operation on other iterators.  Operations that
+   may relink a surviving entry (MoveTo*, GetAndMoveTo*, PutAt*/PutBefore/PutBehind, Sort*, Reposition,
+   SetAutoSortEnabled, Put of an existing key on an auto-sorting table, CopyFrom without clearing) are
+   admitted only when they leave the world unchanged.  [trav i w ops]: the entries newly shown by the advances.
    PARTIAL.  Full statement: the same three theorems with [calm] replaced by the semantic premise "the
    operation does not change the relative order of the surviving entries of the iterator's table"
    ([sem_ok]).  That statement is REFUTED for Put-with-position on the auto-sorting classes
